@@ -249,6 +249,13 @@ func newSessRunner(nSess int) (*sessRunner, error) {
 
 func (m *sessRunner) close() { m.engine.Close() }
 
+func (m *sessRunner) hkField() string {
+	if m.hk == "" {
+		return ""
+	}
+	return `,"hk":` + run.JS(m.hk+"/"+strconv.Itoa(m.nstep))
+}
+
 // holder is the session whose transaction is active (-1: none).
 func (m *sessRunner) holder() int {
 	for i, s := range m.sess {
@@ -804,12 +811,12 @@ func (m *sessRunner) step(st *sessStep, h *sessHist) sessOut {
 	if inTxnCall && !m.dead {
 		if t := m.sess[holder].Transaction(); t != nil {
 			d := sessDump(t.Catalog())
-			out.cases = append(out.cases, run.Case{Req: `{"op":"sess.dumpTxn","sid":` + strconv.Itoa(holder) + `}`, Impl: d,
+			out.cases = append(out.cases, run.Case{Req: `{"op":"sess.dumpTxn","sid":` + strconv.Itoa(holder) + m.hkField() + `}`, Impl: d,
 				Tags: []string{"cmp:dumpTxn"}, Accept: h.accept(d)})
 		}
 	}
 	if committedOK || storeFailed || (st.K == "call" && !inTxnCall && changed) {
-		out.cases = append(out.cases, run.Case{Req: `{"op":"sess.dump"}`, Impl: postDump, Tags: []string{"cmp:dump"}, Accept: h.accept(postDump)})
+		out.cases = append(out.cases, run.Case{Req: `{"op":"sess.dump"` + m.hkField() + `}`, Impl: postDump, Tags: []string{"cmp:dump"}, Accept: h.accept(postDump)})
 	}
 	return out
 }
@@ -915,5 +922,5 @@ func (m *sessRunner) finish(h *sessHist) []run.Case {
 	if h.poisoned {
 		tags = append(tags, "history-poisoned")
 	}
-	return []run.Case{{Req: `{"op":"sess.dump"}`, Impl: d, Tags: tags, Viols: viols, Accept: h.accept(d)}}
+	return []run.Case{{Req: `{"op":"sess.dump"` + m.hkField() + `}`, Impl: d, Tags: tags, Viols: viols, Accept: h.accept(d)}}
 }
